@@ -620,6 +620,14 @@ func ClassifyDump(dump string) (allBlocked bool, summary []string) {
 		if strings.Contains(body, "os/signal.") || strings.Contains(body, "fw.runChild") {
 			continue
 		}
+		if strings.Contains(body, "runtime.Stack(") || strings.Contains(body, "mon.Goroutines(") {
+			// a harness goroutine that is taking a goroutine dump waits in semacquire for the
+			// world to stop: it is working, not blocked
+			relevant++
+			allBlocked = false
+			summary = append(summary, fmt.Sprintf("g%s [taking a goroutine dump]", dump[loc[2]:loc[3]]))
+			continue
+		}
 		relevant++
 		top := ""
 		for _, ln := range strings.Split(body, "\n") {
